@@ -60,11 +60,7 @@ fn check_outcome<A: Spec, const L: usize>(
             }
         }
         (Err(InvalidSymbol(c)), Some(b)) => {
-            if L == 0 {
-                crate::witness!(true, "opt: invalid input reached");
-            } else {
-                crate::witness!(true, "invalid input reached");
-            }
+            crate::witness!(true, "invalid input reached");
             assert!(c == b as char, "error must report the first offending byte");
         }
         (Ok(()), Some(_)) => panic!("invalid input accepted"),
@@ -78,6 +74,16 @@ fn encode_into_body<A: Spec, P: Encode<A>, const L: usize>(pli: &P) {
     let mut dst = [A::Symbol::default(); L];
     let r = pli.encode_into(&src[..], &mut dst[..]);
     check_outcome::<A, L>(&src, r, &dst[..]);
+}
+
+/// Empty input: must be accepted, nothing written.
+fn encode_empty_body<A: Spec, P: Encode<A>>(pli: &P) {
+    let src: [u8; 0] = [];
+    let mut dst: [A::Symbol; 0] = [];
+    let flag = nd::bool_();
+    let r = pli.encode_into(&src[..], &mut dst[..]);
+    crate::witness!(flag, "empty input reached");
+    assert!(r.is_ok());
 }
 
 /// `EncodedSequence::encode` through the runtime dispatcher, arm forced by the hook
@@ -107,7 +113,7 @@ fn avx2<A: Alphabet>() -> Pipeline<A, Avx2> {
 
 // --- generic -----------------------------------------------------------------
 //@ C05 quick 300 generic encode_into, DNA, 0 bytes
-harness!(none, 8, c05_generic_dna_l0, encode_into_body::<Dna, _, 0>(&generic()));
+harness!(none, 8, c05_generic_dna_l0, encode_empty_body::<Dna, _>(&generic()));
 //@ C05 quick 300 generic encode_into, DNA, 4 symbolic bytes
 harness!(none, 8, c05_generic_dna_l4, encode_into_body::<Dna, _, 4>(&generic()));
 //@ C05 quick 300 generic encode_into, protein, 3 symbolic bytes
@@ -129,7 +135,7 @@ harness!(sse2, 38, c05_sse2_protein_l35, encode_into_body::<Protein, _, 35>(&sse
 
 // --- AVX2 (vector loop runs while i + 32 <= L) ----------------------------------
 //@ C05 quick 300 AVX2 encode_into, DNA, 0 bytes
-harness!(avx2, 8, c05_avx2_dna_l0, encode_into_body::<Dna, _, 0>(&avx2()));
+harness!(avx2, 8, c05_avx2_dna_l0, encode_empty_body::<Dna, _>(&avx2()));
 //@ C05 quick 300 AVX2 encode_into, DNA, 31 symbolic bytes (all tail)
 harness!(avx2, 34, c05_avx2_dna_l31, encode_into_body::<Dna, _, 31>(&avx2()));
 //@ C05 quick 600 AVX2 encode_into, DNA, 32 symbolic bytes (one block, empty tail)
